@@ -474,6 +474,12 @@ pub fn run(ctx: &Ctx) -> usize {
 	if rt::par_first(ctx, "slp_cut", bigm.len(), |i| slp_file(ctx, &bigm[i], false, ctx.seed ^ i as u64)).is_some() {
 		violations += 1;
 	}
+	if !ctx.quick() && violations == 0 {
+		let secs = std::env::var("PV_FUZZ_SECS").ok().and_then(|s| s.parse().ok()).unwrap_or(200);
+		if rt::run_fuzz(ctx, "truncate_prefix", secs, 8, 2048, &rt::random_seeds(ctx.seed, 12, 1024)).is_some() {
+			violations += 1;
+		}
+	}
 	if violations > 0 {
 		return violations;
 	}
